@@ -48,3 +48,29 @@ fn c11_interval_bounds_total() {
     if lo.is_finite() && hi.is_finite() && c.quantile() >= 0.5 { assert!(lo <= hi); }
     kani::cover!(lo < hi);
 }
+
+// a DETERMINISTIC stand-in for z_value / t_value: finite, the sign of quantile - 1/2, a function of its arguments only.
+// Used by the frame-condition harnesses (the critical value itself is outside the frame claim).
+pub(crate) fn det_z_value(confidence: Confidence) -> f64 {
+    (confidence.quantile() - 0.5) * 8.0
+}
+pub(crate) fn det_t_value(confidence: Confidence, degrees_of_freedom: f64) -> f64 {
+    if degrees_of_freedom.is_nan() || degrees_of_freedom <= 0.0 {
+        panic!("called `Result::unwrap()` on an `Err` value: FreedomInvalid");
+    }
+    (confidence.quantile() - 0.5) * 8.0 + 1.0 / degrees_of_freedom
+}
+
+// ---- frame condition (C01 / C10): interval_bounds writes to nothing but its own locals (see kani/contracts.json)
+#[kani::proof_for_contract(interval_bounds)]
+#[kani::stub(crate::stats::t_value, det_t_value)]
+#[kani::stub(crate::stats::z_value, det_z_value)]
+fn c10_frame_interval_bounds_writes_no_hidden_state() {
+    let c = any_confidence();
+    let mean: f64 = kani::any();
+    let sem: f64 = kani::any();
+    let dof: f64 = kani::any();
+    kani::assume(dof > 0.0);
+    let (lo, _hi) = interval_bounds(c, mean, sem, dof);
+    kani::cover!(lo.is_finite());
+}
